@@ -42,7 +42,7 @@ STATUS = ["Pending", "Proven", "Candidate", "InError", "Settled"]
 ERRK = {"agg_inconsistent": "EAggInconsistent", "suspicious_height": "ESuspiciousHeight", "local_only": "ELocalOnly",
         "agg_lower": "EAggLower", "different_id": "EDifferentId", "bad_metadata": "EBadMetadata", "storage": "EStorage",
         "not_closed": "ENotClosed", "no_prev_settled": "ENoPrevSettled", "prev_not_settled": "EPrevNotSettled",
-        "unknown_status": "EUnknownStatus", "other": "EOther"}
+        "unknown_status": "EUnknownStatus", "retry_from_mismatch": "ERetryFromMismatch", "other": "EOther"}
 
 
 def chash(h):
@@ -176,7 +176,7 @@ def distribution(outs):
             l = _latest(i["agg"])
             rebuilt = bool(o["after"]) and max(o["after"], key=lambda r: r["height"])["from_agg"]
             if l and rebuilt and l["status"] == 3 and o["outcome"] != "refused":
-                if l["meta"][:2] == "00" and o["next"]["ok"] and i.get("ideal") and o["next"]["from"] != i["ideal"]["from"]:
+                if l["meta"][:2] == "00" and not o["next"]["ok"] and o["next"]["err"] == "retry_from_mismatch":
                     d["boundary_v0_inerror_first_block_not_recoverable"] += 1
                 if l["prev_ler"] is None and not o["next"]["ok"] and o["next"]["err"] == "no_prev_settled":
                     d["boundary_header_without_prev_ler_no_next_certificate"] += 1
@@ -197,7 +197,7 @@ LEVEL_TEXT = ("Kernel-checked theorems over a one-for-one Gallina transcription 
               "Go code by running the real status checker, real SQLite storage and real flow functions on thousands of cases per run.")
 LEVEL_NOTE = ("Stated openly: the crash after submitting a REPLACEMENT of an InError certificate and before storing it is refused "
               "(different id at the same height; CheckInitialStatus then retries forever) - safe, not live; a version-0 metadata hash "
-              "does not carry the first block, so an InError certificate rebuilt from it restarts after its last block; a header "
+              "does not carry the first block, so an InError certificate rebuilt from it has from_block 0 and VerifyBuildParams refuses to build the retry (nothing built); a header "
               "without prev_local_exit_root for an InError certificate at height > 0 after a lost database leaves no next certificate. "
               "Trusted: Coq kernel + vm_compute, SQLite atomicity, the hand transcription (validated by the correspondence), "
               "the fake Agglayer's reading of the two 'latest' endpoints.")
